@@ -347,6 +347,13 @@ func runC17(r *evid.Run) {
 		r.Inconclusive("child failed: %v %s", err, tailStr(stderr.String(), 800))
 		return
 	}
+	// the fine tuner (cmd/simfinetune) evaluates its fitness function - a pool of workers running one
+	// single-shot simulation per record - once per individual and generation: the goroutine count the
+	// command reports after every evaluation (hook, build tag verif) joins the same trace
+	if err := simfinetuneSeries(scratch, out); err != nil {
+		r.Inconclusive("cmd/simfinetune: %v", err)
+		return
+	}
 	var evs []lifeEvent
 	if err := readNDJSON(out, func(b []byte) error {
 		var e lifeEvent
@@ -392,4 +399,77 @@ func runC17(r *evid.Run) {
 	}
 	r.Set("traces_validated_against_impl", series)
 	r.Set("evaluations", int64(len(evs)))
+}
+
+const simfinetuneMachine = `%meta bmdef global registersize:32
+%section code .romtext iomode:sync
+	entry _start
+_start:
+	mov r0, i0
+	inc r1
+	inc r1
+	mov o0, r0
+	mov o1, r1
+	j _start
+%endsection
+%meta cpdef cpu romcode: code, execmode: ha
+%meta ioatt in0 cp: cpu, index:0, type:input
+%meta ioatt in0 cp: bm, index:0, type:input
+%meta ioatt out0 cp: cpu, index:0, type:output
+%meta ioatt out0 cp: bm, index:0, type:output
+%meta ioatt out1 cp: cpu, index:1, type:output
+%meta ioatt out1 cp: bm, index:1, type:output
+`
+
+// simfinetuneSeries runs the real fine tuner (a few generations of a small population over four records)
+// with a pool of three workers and with the default pool, and appends what its hook reported to the trace.
+func simfinetuneSeries(scratch, tracePath string) error {
+	bin, err := buildTool(scratch, "simfinetune")
+	if err != nil {
+		return err
+	}
+	dir := filepath.Join(scratch, "sft")
+	os.MkdirAll(dir, 0o755)
+	os.WriteFile(filepath.Join(dir, "m.basm"), []byte(simfinetuneMachine), 0o644)
+	if _, err := basmCLI(scratch, dir, nil, "m.basm"); err != nil {
+		return err
+	}
+	os.WriteFile(filepath.Join(dir, "in.csv"), []byte("0f1.5\n0f2.5\n0f0.25\n0f3.0\n"), 0o644)
+	os.WriteFile(filepath.Join(dir, "out.csv"), []byte("1.5,9\n2.5,9\n0.25,10\n3.0,9\n"), 0o644)
+	os.WriteFile(filepath.Join(dir, "g.json"), []byte(`{"Debug":false,"PopulationSize":6,"Generations":3,"MutationRate":0.1,"CrossoverRate":0.7,"ElitismCount":1,"MinDelay":1,"MaxDelay":4,"DistributionSize":3}`), 0o644)
+	f, err := os.OpenFile(tracePath, os.O_APPEND|os.O_WRONLY, 0o644)
+	if err != nil {
+		return err
+	}
+	defer f.Close()
+	enc := json.NewEncoder(f)
+	for _, workers := range []int{3, 0} {
+		log := filepath.Join(dir, fmt.Sprintf("hook%d.log", workers))
+		os.Remove(log)
+		out, err := runTool(dir, []string{"BM_VERIF_LOG=" + log}, 5*time.Minute, bin, "-bondmachine-file", "bm.json", "-inputs-file", "in.csv", "-outputs-file", "out.csv",
+			"-genetic-config-file", "g.json", "-workers", strconv.Itoa(workers), "-delays-output-file", "d.json")
+		if err != nil {
+			return fmt.Errorf("simfinetune -workers %d: %v: %s", workers, err, tailStr(out, 300))
+		}
+		b, err := os.ReadFile(log)
+		if err != nil {
+			return fmt.Errorf("simfinetune -workers %d wrote no hook log: %v", workers, err)
+		}
+		var counts []int
+		for _, ln := range strings.Split(strings.TrimSpace(string(b)), "\n") {
+			var n, g int
+			if _, err := fmt.Sscanf(ln, "fitness %d goroutines %d", &n, &g); err == nil {
+				counts = append(counts, g)
+			}
+		}
+		if len(counts) < 10 {
+			return fmt.Errorf("simfinetune -workers %d: only %d fitness evaluations reported", workers, len(counts))
+		}
+		// (the count before the first evaluation is that of an idle command: the main goroutine)
+		enc.Encode(lifeEvent{Ev: "series", Kind: fmt.Sprintf("simfinetune-fitness-evaluations:workers=%d", workers), G0: 1, Bound: 3})
+		for _, n := range []int{1, 5, len(counts)} {
+			enc.Encode(lifeEvent{Ev: "sample", N: n, G: counts[n-1], ByEntry: map[string]int{"goroutines reported by the command": counts[n-1]}})
+		}
+	}
+	return nil
 }
